@@ -17,6 +17,47 @@ fn fail(what: &str, desc: &str) -> ! {
 
 fn kind(e: Edge) -> u8 { match e { Edge::Logic => 0, Edge::Contains => 1, Edge::Data => 2 } }
 
+
+fn check_graph(n: usize, accs: &[Acc], es: &[(usize, usize, bool)], desc: &str, _small: bool) {
+    let desc: String = desc.to_string();
+    let desc = &desc;
+        let mut b = FnGraphBuilder::new();
+        let ids: Vec<FnId> = accs.iter().cloned().map(|a| b.add_fn(a)).collect();
+        for &(x, y, logic) in es {
+            if logic { b.add_logic_edge(ids[x], ids[y]).unwrap(); } else { b.add_contains_edge(ids[x], ids[y]).unwrap(); }
+        }
+        let g = b.build();
+        let calls = std::cell::RefCell::new(vec![]);
+        let r = std::panic::catch_unwind(std::panic::AssertUnwindSafe(|| GraphInfo::from_graph(&g, |a: &Acc| { calls.borrow_mut().push(a.id); format!("info:{}", a.id) })));
+        let info = match r { Ok(i) => i, Err(_) => fail("from_graph panicked", desc) };
+        let mut c = calls.borrow().clone();
+        c.sort();
+        if c != (0..n).collect::<Vec<_>>() { fail(&format!("the caller's function was called for {:?}", calls.borrow()), desc); }
+        let nodes: Vec<String> = info.raw_nodes().iter().map(|x| x.weight.clone()).collect();
+        if nodes != (0..n).map(|i| format!("info:{i}")).collect::<Vec<_>>() { fail(&format!("nodes {nodes:?}"), desc); }
+        let ge: Vec<(usize, usize, u8)> = g.graph.raw_edges().iter().map(|e| (e.source().index(), e.target().index(), kind(e.weight))).collect();
+        let ie: Vec<(usize, usize, u8)> = info.raw_edges().iter().map(|e| (e.source().index(), e.target().index(), kind(e.weight))).collect();
+        if ge != ie { fail(&format!("edges differ: fn_graph {ge:?} graph_info {ie:?} (kinds 0=Logic 1=Contains 2=Data)"), desc); }
+        for (api, seq, rev) in [("iter", info.iter().cloned().collect::<Vec<_>>(), false), ("iter_rev", info.iter_rev().cloned().collect::<Vec<_>>(), true)] {
+            let mut pos = vec![usize::MAX; n];
+            for (k, s) in seq.iter().enumerate() {
+                let i: usize = s[5..].parse().unwrap();
+                if pos[i] != usize::MAX { fail(&format!("{api} yields node {i} twice"), desc); }
+                pos[i] = k;
+            }
+            if pos.iter().any(|&p| p == usize::MAX) { fail(&format!("{api} misses a node: {seq:?}"), desc); }
+            for &(a, b, _) in &ge {
+                let ok = if rev { pos[b] < pos[a] } else { pos[a] < pos[b] };
+                if !ok { fail(&format!("{api} order {seq:?} does not respect edge {a}->{b} of the built graph"), desc); }
+            }
+        }
+        let yaml = match serde_yaml_ng::to_string(&info) { Ok(y) => y, Err(e) => fail(&format!("serialisation failed: {e}"), desc) };
+        let back: GraphInfo<String> = match serde_yaml_ng::from_str(&yaml) { Ok(b) => b, Err(e) => fail(&format!("deserialisation failed: {e}"), desc) };
+        if back != info { fail("value read back from YAML differs", desc); }
+        let be: Vec<(usize, usize, u8)> = back.raw_edges().iter().map(|e| (e.source().index(), e.target().index(), kind(e.weight))).collect();
+        if be != ge { fail(&format!("edges read back from YAML {be:?} differ from the built graph's {ge:?}"), desc); }
+}
+
 fn main() {
     let seed = std::env::var("VERIF_SEED").ok().and_then(|s| s.parse().ok()).unwrap_or(1u64);
     let mut rng = Lcg(seed.wrapping_mul(15485863) + 5);
@@ -33,41 +74,24 @@ fn main() {
         let mut es = vec![];
         for i in 0..n { for j in (i + 1)..n { if rng.below(100) < 25 { es.push((label[i], label[j], rng.below(2) == 0)); } } }
         let desc = format!("round {round}: n={n} accesses={:?} user edges(from,to,is_logic)={es:?}", accs.iter().map(|a| (a.reads.clone(), a.writes.clone())).collect::<Vec<_>>());
-        let mut b = FnGraphBuilder::new();
-        let ids: Vec<FnId> = accs.iter().cloned().map(|a| b.add_fn(a)).collect();
-        for &(x, y, logic) in &es {
-            if logic { b.add_logic_edge(ids[x], ids[y]).unwrap(); } else { b.add_contains_edge(ids[x], ids[y]).unwrap(); }
-        }
-        let g = b.build();
-        let calls = std::cell::RefCell::new(vec![]);
-        let r = std::panic::catch_unwind(std::panic::AssertUnwindSafe(|| GraphInfo::from_graph(&g, |a: &Acc| { calls.borrow_mut().push(a.id); format!("info:{}", a.id) })));
-        let info = match r { Ok(i) => i, Err(_) => fail("from_graph panicked", &desc) };
-        let mut c = calls.borrow().clone();
-        c.sort();
-        if c != (0..n).collect::<Vec<_>>() { fail(&format!("the caller's function was called for {:?}", calls.borrow()), &desc); }
-        let nodes: Vec<String> = info.raw_nodes().iter().map(|x| x.weight.clone()).collect();
-        if nodes != (0..n).map(|i| format!("info:{i}")).collect::<Vec<_>>() { fail(&format!("nodes {nodes:?}"), &desc); }
-        let ge: Vec<(usize, usize, u8)> = g.graph.raw_edges().iter().map(|e| (e.source().index(), e.target().index(), kind(e.weight))).collect();
-        let ie: Vec<(usize, usize, u8)> = info.raw_edges().iter().map(|e| (e.source().index(), e.target().index(), kind(e.weight))).collect();
-        if ge != ie { fail(&format!("edges differ: fn_graph {ge:?} graph_info {ie:?} (kinds 0=Logic 1=Contains 2=Data)"), &desc); }
-        for (api, seq, rev) in [("iter", info.iter().cloned().collect::<Vec<_>>(), false), ("iter_rev", info.iter_rev().cloned().collect::<Vec<_>>(), true)] {
-            let mut pos = vec![usize::MAX; n];
-            for (k, s) in seq.iter().enumerate() {
-                let i: usize = s[5..].parse().unwrap();
-                if pos[i] != usize::MAX { fail(&format!("{api} yields node {i} twice"), &desc); }
-                pos[i] = k;
-            }
-            if pos.iter().any(|&p| p == usize::MAX) { fail(&format!("{api} misses a node: {seq:?}"), &desc); }
-            for &(a, b, _) in &ge {
-                let ok = if rev { pos[b] < pos[a] } else { pos[a] < pos[b] };
-                if !ok { fail(&format!("{api} order {seq:?} does not respect edge {a}->{b} of the built graph"), &desc); }
-            }
-        }
-        let yaml = match serde_yaml_ng::to_string(&info) { Ok(y) => y, Err(e) => fail(&format!("serialisation failed: {e}"), &desc) };
-        let back: GraphInfo<String> = match serde_yaml_ng::from_str(&yaml) { Ok(b) => b, Err(e) => fail(&format!("deserialisation failed: {e}"), &desc) };
-        if back != info { fail("value read back from YAML differs", &desc); }
-        let be: Vec<(usize, usize, u8)> = back.raw_edges().iter().map(|e| (e.source().index(), e.target().index(), kind(e.weight))).collect();
-        if be != ge { fail(&format!("edges read back from YAML {be:?} differ from the built graph's {ge:?}"), &desc); }
+        check_graph(n, &accs, &es, &desc, true);
     }
-    println!("OK c17_info: 3000 graphs: nodes, edges with kinds, iter, iter_rev, YAML round trip");
+    // large graphs: ids beyond 8, 10, 12 and 16 bits (packed or truncated ids in a copy of the edges alias only there). For each
+    // width w: a logic edge s -> 2^w + x and the pair (s+1, x) as a data conflict or a logic edge, plus random sparse edges
+    for (n, widths) in [(300usize, vec![6u32, 8]), (1100, vec![8, 10]), (4200, vec![10, 12])] {
+        let mut accs: Vec<Acc> = (0..n).map(|i| Acc { id: i, reads: vec![], writes: vec![] }).collect();
+        let mut es: Vec<(usize, usize, bool)> = vec![];
+        for (wi, &w) in widths.iter().enumerate() {
+            let base = 1usize << w;
+            let (s0, x) = (1 + 3 * wi, 7 + 5 * wi);
+            es.push((s0, base + x, true));
+            es.push((s0 + 1, x, wi % 2 == 0));
+            // two writers of one type far apart: build() joins them with a Data edge s0+2 -> base + x + 1
+            accs[s0 + 2].writes = vec![wi as u8]; accs[base + x + 1].writes = vec![wi as u8];
+        }
+        for _ in 0..40 { let a = rng.below(n as u64 - 1) as usize; let b2 = a + 1 + rng.below((n - a - 1) as u64) as usize; if !es.iter().any(|&(p, q, _)| p == a && q == b2) { es.push((a, b2, rng.below(2) == 0)); } }
+        let desc = format!("large graph: n={n}, user edges(from,to,is_logic)={es:?}, writers of one type at distance");
+        check_graph(n, &accs, &es, &desc, false);
+    }
+    println!("OK c17_info: 3000 small graphs and graphs of 300 / 1100 / 4200 functions: nodes, edges with kinds, iter, iter_rev, YAML round trip");
 }
